@@ -123,7 +123,7 @@ PROPS['C09'] = {
     'level': 'other',
     'quick_configs': ['default'],
     'thorough_configs': ALL,
-    'controls': ['R9.1', 'R9.2', 'R9.3', 'R9.4', 'R9.5', 'R9.6'],
+    'controls': ['R9.1', 'R9.2', 'R9.3', 'R9.4', 'R9.5', 'R9.6', 'R9.7'],
     'floors': {'default': {'R9.1': 250, 'R9.6': 14}},
     'rule_text': 'one obligation per call site in fatfs whose result type carries a device-capable error and whose '
                  'callee may reach the device (mono call graph), per closure parameter of such a type, and per RefCell '
@@ -237,12 +237,12 @@ PROPS['C12'] = {
 }
 
 PROPS['C05'] = {
-    'modules': ['c05'],
+    'modules': ['c05', ('c03', ['R3.8'])],
     'level': 'other',
     'quick_configs': ['default'],
     'thorough_configs': ALL,
     'controls': ['A5.1', 'A5.2'],
-    'floors': {'default': {'A5.1': 3, 'A5.2': 4, 'X2': 4, 'A5.6': 15}},
+    'floors': {'default': {'A5.1': 3, 'A5.2': 4, 'X2': 4, 'A5.6': 15, 'R3.8': 1}},
     'rule_text': 'one obligation per FAT-mutator call site made on behalf of a FileSystem (must be followed by a counter '
                  'update on every Ok path, using the returned delta), per assignment to a persisted counter inside '
                  'FsInfoSector (must latch dirty), per encoder field, per recount/ dirty-mount / reclaim condition, and per '
